@@ -14,6 +14,7 @@
 import NemoVerif.Lemmas.Closed
 import NemoVerif.Lemmas.V1Compile
 import NemoVerif.Lemmas.Expand
+import NemoVerif.Lemmas.ExpandPath
 namespace NemoVerif.C12
 open NemoVerif NemoVerif.Closed NemoVerif.V1Compile NemoVerif.Expand
 
@@ -301,6 +302,48 @@ theorem expand_labels_fresh (cb : Option (Lbl × Lbl)) (ss : List Stmt) (hwf : w
 theorem fork_template_closed (v : Variant) (pre : Nat → String) (gens : List Gen) (hg : ∀ g ∈ gens, GenOK [] g) (c : Nat) :
     Closed (forkTemplate v pre gens c).1 :=
   closed_of_inv _ c (forkTemplate_ok [] v pre gens hg c)
+
+/-! ### Path-level safety of ALL expansions (phase 3)
+
+  Full statement aimed at:
+      expand_path_safe : wfList ss → ∀ h, Reach (expandFlow ss) h → ∀ c,
+        step (expandFlow ss) h c ∉ {keyError, invalidLabel, scopeError}
+  i.e. on every execution path no look-up fails and no head meets `BeginScope(n)` while it still holds `n` ("every opened
+  scope is closed on every path and never re-opened while open").  Proved below for every program WITHOUT `when`
+  (`whenFreeList`): arbitrary nesting of if / elif / else, while / break / continue, match / send / start / await of specs
+  and and/or groups — including the scope-opening `await <or-group>` template inside loops —, activate / deactivate, NLD.
+  Method: every generated piece carries a state annotation (handler stack + open scopes, ONE state per position; all
+  statements are entered and left with the state of the enclosing statement list, fork-template branches run in
+  `(failure_label :: h, [scope ::] s)`); `annot_sound` (any closed program with a consistent annotation is path-safe) is
+  generic in the program.  For `when` the annotation needs unconditional `Goto`s to be modelled as such (today `step`
+  explores both outcomes of every Goto; after a then-body the fall-through of `goto when_end` into `failure_case_…` would
+  carry a second state) and the per-case / per-group label duplicates; programs with `when` are covered per program by
+  `path_checker_sound` on the real output. -/
+
+/-- generic: a program with a consistent state annotation starting in `([], [])` never raises the scope error -/
+theorem annotation_sound {L : Type} [DecidableEq L] (ap : List (APrim L)) (ex : St L) (hch : Chain (LabSt ap) ap ex)
+    (h0 : entryOf ap ex = ⟨[], []⟩) (h : Head L) (hr : Reach (ap.map Prod.fst) h) (c : Bool) :
+    step (ap.map Prod.fst) h c ≠ .scopeError :=
+  (annot_sound ap ex hch h0 h hr).2 c
+
+/-- `expand_path_safe` for all `when`-free programs (the hypothesis `whenFreeList` excludes exactly the region left open) -/
+theorem expand_path_safe_partial (ss : List Stmt) (hwf : wfList ss = true) (hnw : whenFreeList ss = true)
+    (h : Head Lbl) (hr : Reach (expandFlow ss) h) (c : Bool) :
+    step (expandFlow ss) h c ≠ .keyError ∧ step (expandFlow ss) h c ≠ .invalidLabel ∧
+    step (expandFlow ss) h c ≠ .scopeError := by
+  obtain ⟨h1, h2, _⟩ := expand_safe ss hwf h hr c
+  obtain ⟨ap, he, hch, h0⟩ := expandFlow_annotated ss hwf hnw
+  refine ⟨h1, h2, ?_⟩
+  have := annotation_sound ap ⟨[], []⟩ hch h0 h (by rw [he]; exact hr) c
+  rw [he] at this
+  exact this
+
+/-- non-vacuity: an `await (a or (b and c))` inside a loop inside an `if` — opens a scope on every iteration (finite fact) -/
+example : wfList [.ifS [.whileS [.awaitG [[⟨.flow, false⟩], [⟨.action, true⟩, ⟨.flow, false⟩]], .brk]] []] = true ∧
+    whenFreeList [.ifS [.whileS [.awaitG [[⟨.flow, false⟩], [⟨.action, true⟩, ⟨.flow, false⟩]], .brk]] []] = true ∧
+    (expandFlow [.ifS [.whileS [.awaitG [[⟨.flow, false⟩], [⟨.action, true⟩, ⟨.flow, false⟩]], .brk]] []]).any
+      (fun e => e == .beginScope ("scope_", 6)) = true := by
+  decide
 
 /-- `break` / `continue` are resolved to the labels of the innermost enclosing loop, also through `if` (finite fact) -/
 example : expandFlow [.whileS [.ifS [.brk] [.whileS [.cont]]], .brk] =
